@@ -237,7 +237,7 @@ class DataLoggerSpec(Spec):
             "read back (raw split by the independent codec, json via Message.from_json, quicklogger via QLReader) and "
             "compared with the accepted sequence.  non-trivial = more than two task switches and at least one message; "
             "distinct = distinct scheduler log + operation trace")
-    expected_probes = ("checked_raw", "checked_json", "checked_quicklogger", "subdivided_files", "empty_sequence",
+    expected_probes = ("checked_raw", "checked_json", "checked_quicklogger", "checked_msg_header", "subdivided_files", "empty_sequence",
                        "single_message", "lock_contended", "runs_with_flush", "runs_with_3+_flushes", "writer_busy_seen",
                        "ql_files_read", "second_recording")
     components = {"real": ["pyrtma.data_logger.data_collection (DataCollection incl. the writer loop)",
